@@ -643,8 +643,12 @@ def roundtrip_lemma(tamper=None):
     pick = lambda key, prop: next(c for c in R.alts[key] if c.prop == prop)
     c_write, c_parse = pick(f"{IO}:to_swc", "C01"), pick(f"{IO}:parse_swc", "C02")
     c_reset, c_build = pick("swcgeom/core/swc_utils/normalizer.py:reset_index_", "C18"), pick(f"{TREE}:Tree.from_data_frame", "C01")
+    c_write_any = [c for c in R.alts[f"{IO}:to_swc"] if c.prop == "C01" and 0 in c.loops][0]  # second registration: any number of arbitrary comments
+    c_like = pick(f"{SWC}:SWCLike.to_swc", "C01")
     if tamper is not None:
         tamper(c_write, c_parse, c_reset, c_build)
+        if hasattr(tamper, "more"):
+            tamper.more(c_write_any, c_like)
     names = get_names()
     NC = names.cols()
     E = Verifier(R, "C01")
@@ -697,10 +701,31 @@ def roundtrip_lemma(tamper=None):
     v_, r_ = z3.Int("v"), z3.Real("r")
     E.assume(z3.ForAll([v_], z3.And(C02.INT_OK(STR_OF_INT(v_)), C02.INT_OF(STR_OF_INT(v_)) == v_)))
     E.assume(z3.ForAll([r_], z3.And(C02.FLT_OK(FMT4(r_)), C02.FLT_OF(FMT4(r_)) == ROUND4(r_))))
-    E.assume(z3.ForAll([k], z3.Implies(z3.And(k >= 0, k < n), z3.And(*[C02.GRP(row_tag, WROW(k), c + 1) == _text_of_atom(a) for c, a in enumerate(cells)]))))
+    # WROW(k) names the text of the k-th node line (definition of the ghost symbol): the cell texts joined by single blanks, then a newline
+    def text_id(line):
+        ids = [STR.lit(E, a) if isinstance(a, str) else _text_of_atom(a) for a in atoms(line)]
+        z = ids[-1]
+        for a in reversed(ids[:-1]):
+            z = STR.CONCAT(a, z)
+        return z
+
+    general = len(E.pc)  # the two general facts below are dropped again once their consequence for the n node lines is proved (fewer hypotheses: sound)
+    E.assume(z3.ForAll([k], z3.Implies(z3.And(k >= 0, k < n), WROW(k) == text_id(written_line(k))), patterns=[WROW(k)]))
+    # reading of C01/regex/written-row-line-is-a-row + the whitespace-token lemma: ANY text of that shape (str() of two naturals, four '.4f' texts,
+    # str() of an integer >= -1) passes the reader's row test and its column groups are the cell texts
+    qv = {c: (z3.Int("q_" + c) if c in INT_COLS else z3.Real("q_" + c)) for c in NC}
+    shape = SStr(tuple(x for jx, c in enumerate(NC) for x in ([" "] if jx else []) + [FmtPiece(Sym(qv[c], "int" if c in INT_COLS else "real"), "str" if c in INT_COLS else ".4f")]) + ("\n",))
+    any_row = text_id(shape)
+    qcells = [a for a in atoms(shape) if not isinstance(a, str)]
+    E.assume(z3.ForAll([qv[c] for c in NC], z3.Implies(z3.And(qv["id"] >= 0, qv["type"] >= 0, qv["pid"] >= -1),
+                                                       z3.And(C02.is_row(0, any_row), *[C02.GRP(row_tag, any_row, c + 1) == _text_of_atom(a) for c, a in enumerate(qcells)])),
+                       patterns=[any_row]))
+    E.prove("lemma/roundtrip/structure/every-node-line-has-the-row-shape:it-passes-the-row-test-and-its-groups-are-the-cell-texts",
+            z3.ForAll([k], z3.Implies(z3.And(k >= 0, k < n), z3.And(C02.is_row(0, WROW(k)), *[C02.GRP(row_tag, WROW(k), c + 1) == _text_of_atom(a) for c, a in enumerate(cells)])),
+                      patterns=[WROW(k)]), "lemma")
+    del E.pc[general:-1]
     # ---- 2b. the comment lines to_swc writes (its second registration: ANY number of ARBITRARY comments), the column header, and the
     # structure of the written text: mc comment lines, the header line, n node lines -- which the reader gets back line by line (assumed: io)
-    c_write_any = [c for c in R.alts[f"{IO}:to_swc"] if c.prop == "C01" and 0 in c.loops][0]
     (clab, comment_yield), = c_write_any.loops[0]["yields"]
     mc = z3.Int("n_comments_passed")
     passed = STR.str_list("passed_comments", n=mc)
@@ -709,23 +734,37 @@ def roundtrip_lemma(tamper=None):
     cy = comment_yield(E, dict(wv, given_comments=passed, comments=passed), [STR.AbsStr(WCOM(j))], Sym(j, "int"))
     if cy is False:
         raise KeyError("to_swc's comment clause no longer describes one text per comment: the round-trip lemma cannot be stated")
+    general = len(E.pc)  # as for the node lines: general facts first, their consequence for the m comment lines proved, then the general facts dropped
     E.assume(z3.ForAll([j], z3.Implies(z3.And(j >= 0, j < mc), to_z3(cy, "bool")), patterns=[WCOM(j)]))
     whdr = STR.lit(E, "# " + " ".join(NC) + "\n")  # to_swc's clause column-header-line-follows-the-comments
-    NLf, LINEf = C02.NL(f), (lambda t: C02.LINE(f, t))
-    E.assume(NLf == mc + 1 + n)
-    E.assume(z3.ForAll([j], z3.Implies(z3.And(j >= 0, j < mc), LINEf(j) == WCOM(j)), patterns=[LINEf(j)]))
-    E.assume(LINEf(mc) == whdr)
-    E.assume(z3.ForAll([k], z3.Implies(z3.And(k >= 0, k < n), LINEf(mc + 1 + k) == WROW(k)), patterns=[WROW(k)]))
-    E.assume(z3.ForAll([k], z3.Not(C02.DECERR(f, k)), patterns=[C02.DECERR(f, k)]))
     # the reading of the abstract vocabulary (LEMMA_ASSUMPTIONS): node lines are rows, '#' lines are comments and no rows, what the reader keeps of a
     # written comment line is the comment (leading blanks aside), the header line is dropped, [NOT discharged: every written comment line is kept]
     hdr_txt = z3.StringVal(C02.header_text(names))
     is_row, is_cm, ctext = (lambda s: C02.is_row(0, s)), (lambda s: C02.is_comment(0, s)), C02.comment_text
     LSTRIP = z3.Function("str.lstrip", z3.IntSort(), z3.IntSort())
-    E.assume(z3.ForAll([k], z3.Implies(z3.And(k >= 0, k < n), is_row(WROW(k))), patterns=[WROW(k)]))
-    E.assume(z3.ForAll([j], z3.Implies(z3.And(j >= 0, j < mc), z3.And(is_cm(WCOM(j)), LSTRIP(ctext(WCOM(j))) == LSTRIP(z3.Select(passed.cols[0], j)))), patterns=[WCOM(j)]))
+    qc = z3.Int("q_comment")
+    full_line = STR.as_id(E, SymStr(["# ", STR.AbsStr(LSTRIP(qc)), "\n"]))  # the line of to_swc's comment clause for the comment qc
+    bare_line = STR.lit(E, "#\n")
+    blank = lambda c: z3.Or(C02.IS_BLANK(c), c == 0)
+    # reading of C01/regex/written-comment-line-is-a-comment-and-no-row and C01/lemma/comments/text/*: for ANY comment text
+    E.assume(z3.ForAll([qc], z3.And(is_cm(full_line), LSTRIP(ctext(full_line)) == LSTRIP(qc)), patterns=[full_line]))
+    E.assume(z3.And(is_cm(bare_line), ctext(bare_line) == 0, z3.Not(C02.STARTS(z3.IntVal(0), hdr_txt)), LSTRIP(z3.IntVal(0)) == 0))
+    E.assume(z3.ForAll([qc], z3.Implies(blank(qc), LSTRIP(qc) == 0), patterns=[LSTRIP(qc)]))
     E.assume(z3.And(is_cm(whdr), C02.STARTS(ctext(whdr), hdr_txt)))
-    E.assume(z3.ForAll([j], z3.Implies(z3.And(j >= 0, j < mc), z3.Not(C02.STARTS(ctext(WCOM(j)), hdr_txt))), patterns=[WCOM(j)]))
+    E.assume(z3.ForAll([qc], z3.Not(C02.STARTS(ctext(full_line), hdr_txt)), patterns=[full_line]))  # NOT discharged: the known finding (LEMMA_ASSUMPTIONS)
+    E.prove("lemma/roundtrip/structure/every-written-comment-line-is-a-comment-line-whose-kept-text-is-the-comment-leading-blanks-aside(under-the-undischarged-hypothesis)",
+            z3.ForAll([j], z3.Implies(z3.And(j >= 0, j < mc), z3.And(is_cm(WCOM(j)), LSTRIP(ctext(WCOM(j))) == LSTRIP(z3.Select(passed.cols[0], j)),
+                                                                      z3.Not(C02.STARTS(ctext(WCOM(j)), hdr_txt)))), patterns=[WCOM(j)]), "lemma")
+    header_facts = z3.And(is_cm(whdr), C02.STARTS(ctext(whdr), hdr_txt))
+    del E.pc[general:-1]
+    E.assume(header_facts)
+    # the reader gets the written text back line by line (assumed: io)
+    NLf, LINEf = C02.NL(f), (lambda t: C02.LINE(f, t))
+    E.assume(NLf == mc + 1 + n)
+    E.assume(z3.ForAll([j], z3.Implies(z3.And(j >= 0, j < mc), LINEf(j) == WCOM(j)), patterns=[LINEf(j)]))
+    E.assume(LINEf(mc) == whdr)
+    E.assume(z3.ForAll([k], z3.Implies(z3.And(k > mc, k < NLf), LINEf(k) == WROW(k - mc - 1)), patterns=[LINEf(k)]))
+    E.assume(z3.ForAll([k], z3.Not(C02.DECERR(f, k)), patterns=[C02.DECERR(f, k)]))
     # the reader's ghost counters (definitions of contracts/C02.py) and the counting lemma (lean/Count.lean) over the three blocks
     C02.ghost_axioms(E, f, 0, names)
     kept = lambda s: C02.kept_comment(0, names, s)
@@ -747,7 +786,7 @@ def roundtrip_lemma(tamper=None):
     E.prove("lemma/roundtrip/structure/there-are-exactly-n-row-lines", C02.RCNT(f, NLf) == n, "lemma")
     E.prove("lemma/roundtrip/structure/the-row-lines-are-the-node-lines-in-node-order",
             z3.ForAll([k], z3.Implies(rng(k, 0, n), C02.LINE(f, C02.RLINE(f, k)) == WROW(k))), "lemma")
-    E.prove("lemma/roundtrip/structure/there-are-exactly-mc-kept-comment-lines", C02.CCNT(f, NLf) == mc, "lemma")
+    E.prove("lemma/roundtrip/structure/there-are-exactly-m-kept-comment-lines", C02.CCNT(f, NLf) == mc, "lemma")
     E.prove("lemma/roundtrip/structure/the-kept-comment-lines-are-the-written-comment-lines-in-order",
             z3.ForAll([k], z3.Implies(rng(k, 0, mc), C02.LINE(f, C02.CLINE(f, k)) == WCOM(k))), "lemma")
     E.prove("lemma/roundtrip/every-written-row-converts(no-ValueError-from-the-reader)",
@@ -802,7 +841,6 @@ def roundtrip_lemma(tamper=None):
     E.prove("lemma/roundtrip/comments/comment-j-comes-back-in-place-with-the-same-text-leading-blanks-aside",
             z3.ForAll([j], z3.Implies(z3.And(j >= 0, j < mc), LSTRIP(cback(j)) == LSTRIP(z3.Select(passed.cols[0], j)))), "lemma")
     # ---- SWCLike.to_swc's contract: what it passes is the optional source header, then the tree's own comments, and nothing else (three source kinds)
-    c_like = pick(f"{SWC}:SWCLike.to_swc", "C01")
     like_header = _clause(c_like, "comments-passed-are-the-optional-source-header-then-the-tree's-own-comments-and-nothing-else")
     own = STR.str_list("tree_comments")
     E.assume(own.n >= 0)
